@@ -12,10 +12,13 @@ PROP_MODULES = ['TxV.Props.C05', 'TxV.Props.C05b']
 AUDIT = 'Audit/C05.lean'
 ANCHORS = ['txtorcon/socks.py']
 RULE = ('server streams = method reply (ok / wrong version / wrong method / method 2) ++ request reply (reply codes 0..255, address type '
-        '1/3/4/other, domain lengths 0,1,5,255, truncated replies) ++ 0..40 application bytes, for CONNECT / RESOLVE / RESOLVE_PTR; each stream '
+        '1/3/4/other, domain lengths 0,1,5,255, truncated replies) ++ 0..1000 application bytes, for CONNECT / RESOLVE / RESOLVE_PTR; each stream '
         'is fed in several segmentations (whole, byte-wise, every two-cut split for short streams, random cuts) and optionally followed by a '
-        'connection loss after a random chunk. non-trivial = the stream contains a complete request reply; distinct = distinct (request, chunks, loss)')
+        'connection loss after a random chunk; in some cases reads arrive while the application is still inside dataReceived for the previous read '
+        '(a peer that answers at once); after every case the outcome is asked for again. non-trivial = the stream contains a complete request reply; distinct = distinct (request, chunks, loss)')
 TRUSTED = ["automat dispatch order (state changes before outputs run, outputs may inject inputs) as modelled; the automaton table itself is regenerated from the source",
+           "a read delivered from inside the application's dataReceived is presented to the model as the next read; 'a late caller is told the "
+           "announced outcome' is a statement of the harness (the model announces the outcome once and keeps no copy)",
            "portforward.ProxyClient / the application protocol are test doubles; inet_ntoa/inet_ntop text forms are compared as packed bytes"]
 ASSUMPTIONS = ["H: nothing follows a complete answer to a resolve request; "
                "a CONNECT is not answered with a domain-type address (known finding) — excluded streams are run and compared impl-vs-model"]
@@ -58,7 +61,7 @@ def gen_stream(rng):
         ver = bytes([rng.choice([4, 0, 6]), 0])
     else:
         ver = bytes([5, rng.choice([1, 3, 0xff])])
-    app = bytes(rng.randrange(256) for _ in range(rng.choice([0, 0, 1, 2, 5, 17, 40])))
+    app = bytes(rng.randrange(256) for _ in range(rng.choice([0, 0, 1, 2, 5, 17, 40, 253, 300, 1000])))
     return ver + reply_bytes(rng) + app
 
 
@@ -84,6 +87,11 @@ def corpus():
         {'req': 'CONNECT', 'host': 'example.com', 'port': 80, 'chunks': ['0500', '05000001' + '01020304' + '0050' + '48454c4c4f'], 'lost': None},
         {'req': 'RESOLVE', 'host': 'example.com', 'port': 0, 'chunks': ['0500', '05000004' + '20010db8000000000000000000000001' + '0000'], 'lost': None},
         {'req': 'CONNECT', 'host': 'example.com', 'port': 80, 'chunks': ['0500', '05000003' + '03616263' + '0050', '4142'], 'lost': None},
+        # the peer answers while the application is still handling the previous read (twice), then the connection goes
+        {'req': 'CONNECT', 'host': 'example.com', 'port': 80, 'chunks': ['0500' + '05000001' + '01020304' + '0050', '48454c4c4f', '574f524c44', '21'],
+         'lost': 4, 'nested': [2, 3]},
+        {'req': 'CONNECT', 'host': '10.1.2.3', 'port': 443, 'chunks': ['0500', '05000001' + '01020304' + '0050' + '4142', '4344', '4546'], 'lost': None,
+         'nested': [2, 3]},
     ]
 
 
@@ -98,7 +106,11 @@ def gen_cases(rng, tier):
             lost = None
             if rng.random() < 0.3:
                 lost = rng.randrange(len(parts) + 1)
-            yield {'req': req, 'host': host, 'port': port, 'chunks': [p.hex() for p in parts], 'lost': lost}
+            c = {'req': req, 'host': host, 'port': port, 'chunks': [p.hex() for p in parts], 'lost': lost}
+            if len(parts) > 2 and rng.random() < 0.3:
+                # some reads arrive while the application is still inside dataReceived for the previous one
+                c['nested'] = sorted(rng.sample(range(1, len(parts)), rng.randint(1, min(3, len(parts) - 1))))
+            yield c
 
 
 def ops_of(c):
@@ -107,7 +119,7 @@ def ops_of(c):
         if c['lost'] is not None and c['lost'] == i:
             ops.append(['lost'])
             return ops
-        ops.append(['feed', ch or '-'])
+        ops.append(['refeed' if i in (c.get('nested') or []) else 'feed', ch or '-'])
     if c['lost'] is not None and c['lost'] >= len(c['chunks']):
         ops.append(['lost'])
     return ops
@@ -116,8 +128,11 @@ def ops_of(c):
 def run_impl(c):
     im = socksh.Impl(c['req'], c['host'], c['port'])
     outs = []
-    for op in ops_of(c):
-        outs += im.do(op)
+    ops = ops_of(c)
+    for i, op in enumerate(ops):
+        outs += im.do(op, ops[i + 1] if i + 1 < len(ops) else None)
+    if not any(o.startswith('exc ') for o in outs):
+        outs += ['late ' + o for o in im.late()]
     return outs
 
 
@@ -132,7 +147,7 @@ def truncate_at_exc(outs):
 
 def stream_of(c, upto_lost=True):
     ops = ops_of(c)
-    return ''.join(op[1] for op in ops if op[0] == 'feed' and op[1] != '-')
+    return ''.join(op[1] for op in ops if op[0] in ('feed', 'refeed') and op[1] != '-')
 
 
 def in_h(c, total_hex):
@@ -171,12 +186,14 @@ def run_cases(cases, drv, tier):
             rb = e.split(' ')[1] if e.startswith('some') else 'none'
             ls = ['new %s %s' % (c['req'], rb)]
             for op in ops_of(c):
-                ls.append('connect ' + GREETING if op[0] == 'connect' else 'lost' if op[0] == 'lost' else 'feed ' + op[1])
+                ls.append('connect ' + GREETING if op[0] == 'connect' else 'lost' if op[0] == 'lost' else 'feed ' + op[1])   # a nested read is a read
             ls.append('spec %s %s %s %s' % (c['req'], GREETING, rb if rb != 'none' else '-', stream_of(c) or '-'))
             spans2.append((len(lines2), len(ls)))
             lines2 += ls
         outs2 = drv.run(lines2)
     for k, (c, im) in enumerate(zip(cases, impls)):
+        late = [o[5:] for o in im if o.startswith('late ')]
+        im = [o for o in im if not o.startswith('late ')]
         total = stream_of(c)
         h, why = in_h(c, total)
         model = spec = None
@@ -200,6 +217,11 @@ def run_cases(cases, drv, tier):
                 elif spec['outcome'] == 'connected':
                     spec['applost'] = True
                     spec['closed'] = True
+            # a caller that asks after everything is told the outcome that was announced (and nothing while there is none)
+            first = [o for o in im if o.startswith('done ')][:1]
+            late_ok = (late == first) or any(o.startswith('exc ') for o in im)
+            obs_i['late_same'] = late_ok
+            spec['late_same'] = True
             if not h:
                 spec = None
             else:
@@ -207,7 +229,7 @@ def run_cases(cases, drv, tier):
         t = bytes.fromhex(total)
         complete = len(t) >= 10
         tags = [c['req'], 'chunks=%s' % ('1' if len(c['chunks']) == 1 else 'bytes' if all(len(x) == 2 for x in c['chunks']) else 'n'),
-                'lost' if c['lost'] is not None else 'nolost', 'outcome=' + str(obs_i['outcome']).split('_')[0],
+                'lost' if c['lost'] is not None else 'nolost', 'nested-reads' if c.get('nested') else 'sequential-reads', 'outcome=' + str(obs_i['outcome']).split('_')[0],
                 ('H' + (':' + why if why else '')) if h else 'outsideH:' + why]
         res.append(Result(c, im if drv is None else {'trace': im, 'obs': obs_i}, model, spec, corr_ok=corr_ok, prop_ok=prop_ok,
                           in_h=h, nontrivial=complete, tags=tags))
